@@ -396,3 +396,159 @@ Proof.
     destruct (G6 o' Hn) as (A & B & C). rewrite C in Ht. apply Wt in Ht.
     unfold registered in *. rewrite A, B. exact Ht.
 Qed.
+
+Lemma Inv_api : forall k s s1 o s', Inv k s -> only_o o s s1 -> NoDup (rd s1) -> NoDup (wr s1) ->
+  born s o <> None -> (tg s1 o <> None -> registered s1 o) -> api k s1 o = Some s' -> Inv k s'.
+Proof.
+  intros k s s1 o s' (HW & HM & HE) Ho N1 N2 Hb Ht H. split; [|split].
+  - eapply WInv_api; eassumption.
+  - intros Hk. assert (Hu : update_reg k s1 o = Some s') by (destruct k; [congruence | exact H | exact H]).
+    pose proof Ho as (G1 & G2 & G3 & _).
+    eapply update_reg_MInv; [ | | eapply MInv_only_o; [apply HM; exact Hk | exact Ho] | exact Hu].
+    + intros o' f. rewrite G1, G2. apply (w_inj _ HW).
+    + intros o' f. rewrite G1, G3. apply (w_born _ HW).
+  - intros Hk. subst k. simpl in H. eapply update_reg_EInv; [|exact H].
+    eapply EInv_only_o; [apply HE; reflexivity | exact Ho].
+Qed.
+
+(* ------------------------------------------------------------------ Open / Close *)
+Lemma Inv_open : forall k s o f s' e, Inv k s -> step k s (Open o f) = Ok s' e -> Inv k s'.
+Proof.
+  intros k s o f s' e (HW & HM & HE) H. simpl in H.
+  destruct (born s o) eqn:Eb; [discriminate|]. destruct (holder s f) eqn:Eh; [discriminate|].
+  inversion H; subst; clear H. destruct HW as [Wi Wb Wr Wn1 Wn2 Wt].
+  assert (Hfo : fds s o = None).
+  { destruct (fds s o) eqn:E; [|reflexivity]. apply Wb in E. congruence. }
+  split; [|split].
+  - split; simpl; try assumption.
+    + intros o' f'. unfold upd. destruct (Nat.eqb_spec o' o); destruct (Nat.eqb_spec f' f); subst.
+      * split; reflexivity.
+      * split; intro H; [inversion H; congruence|]. apply Wi in H. congruence.
+      * split; intro H; [|inversion H; congruence]. apply Wi in H. congruence.
+      * apply Wi.
+    + intros o' f'. unfold upd. destruct (Nat.eqb_spec o' o); [auto | apply Wb].
+    + intros o' Hr. unfold upd. destruct (Nat.eqb_spec o' o); [discriminate | apply Wr; exact Hr].
+  - intros Hk. destruct (HM Hk) as [Mb Mm Me]. split; simpl.
+    + intros f' o' Hp. unfold upd. destruct (Nat.eqb_spec o' o); [subst; apply Mb in Hp; congruence | apply Mb; exact Hp].
+    + intros o' f' Hfd Hr. unfold upd in Hfd. destruct (Nat.eqb_spec o' o).
+      * subst. exfalso. apply (Wr o); [exact Hr | exact Eb].
+      * apply Mm; assumption.
+    + intros f' o' m Hp Hfd Hkr. unfold upd in Hfd. destruct (Nat.eqb_spec o' o).
+      * subst. apply Mb in Hp. congruence.
+      * eapply Me; eassumption.
+  - intros Hk f' m Hkr. simpl in *. destruct (HE Hk f' m Hkr) as (o' & Hp & Hfd).
+    exists o'. split; [exact Hp|]. unfold upd. destruct (Nat.eqb_spec o' o); [subst; congruence | exact Hfd].
+Qed.
+
+Lemma Inv_close : forall k s o s' e, Inv k s -> step k s (Close o) = Ok s' e -> Inv k s'.
+Proof.
+  intros k s o s' e (HW & HM & HE) H. simpl in H.
+  destruct (fds s o) as [f|] eqn:Ef; [|discriminate].
+  inversion H; subst; clear H. destruct HW as [Wi Wb Wr Wn1 Wn2 Wt].
+  assert (Hinj : forall o' f', fds s o' = Some f' -> o' <> o -> f' <> f).
+  { intros o' f' H1 H2 ->. apply Wi in H1. apply Wi in Ef. congruence. }
+  split; [|split].
+  - split; simpl; try assumption.
+    + intros o' f'. unfold upd. destruct (Nat.eqb_spec o' o); destruct (Nat.eqb_spec f' f); subst.
+      * split; discriminate.
+      * split; [discriminate|]. intro H. apply Wi in H. congruence.
+      * split; [|discriminate]. intro H. exfalso. eapply Hinj; eauto.
+      * apply Wi.
+    + intros o' f'. unfold upd. destruct (Nat.eqb_spec o' o); [discriminate | apply Wb].
+  - intros Hk. destruct (HM Hk) as [Mb Mm Me]. split; simpl.
+    + exact Mb.
+    + intros o' f' Hfd Hr. unfold upd in Hfd. destruct (Nat.eqb_spec o' o); [discriminate|].
+      destruct (Mm o' f' Hfd Hr) as [A B]. split; [exact A|].
+      destruct k; try exact B. rewrite upd_other; [exact B | eapply Hinj; eauto].
+    + intros f' o' m Hp Hfd Hkr. unfold upd in Hfd. destruct (Nat.eqb_spec o' o); [discriminate|].
+      eapply Me; try eassumption.
+      destruct k; try exact Hkr. unfold upd in Hkr. destruct (Nat.eqb_spec f' f); [discriminate | exact Hkr].
+  - intros Hk. subst k. intros f' m Hkr. simpl in Hkr. unfold upd in Hkr. destruct (Nat.eqb_spec f' f); [discriminate|].
+    simpl.
+    destruct (HE eq_refl f' m Hkr) as (o' & Hp & Hfd). exists o'. split; [exact Hp|].
+    unfold upd. destruct (Nat.eqb_spec o' o); [subst; congruence | exact Hfd].
+Qed.
+
+(* ------------------------------------------------------------------ one reported descriptor *)
+Lemma process_cases : forall k s f r s' e, process k s (f, r) = (s', e) ->
+  (s' = s /\ forall x, In x e -> exists o c, x = ERead o c \/ x = EWrite o c) \/
+  (exists o, pmap s f = Some o /\ ~ registered s o /\ s' = forget s f /\ e = []) \/
+  (exists o, pmap s f = Some o /\ s' = b_discard (forget s f) o /\ e = [EDisc o (target s o)]).
+Proof.
+  intros k s f r s' e H. unfold process in H.
+  destruct (pmap s f) as [o|] eqn:Ep.
+  - match type of H with (if ?c then _ else _) = _ => destruct c eqn:Est end.
+    + destruct (mem o (rd s) || mem o (wr s)) eqn:Em; inversion H; subst; clear H.
+      * right. right. exists o. auto.
+      * right. left. exists o. repeat split; try reflexivity.
+        intro Hr. apply registered_mask in Hr. unfold mask in Hr. simpl in Hr. congruence.
+    + match type of H with (if ?c then _ else _) = _ => destruct c eqn:Eh end; inversion H; subst; clear H.
+      * right. right. exists o. auto.
+      * left. split; [reflexivity|]. intros x Hx. apply in_app_iff in Hx.
+        destruct Hx as [Hx|Hx]; [destruct (r_in r) | destruct (r_out r)]; simpl in Hx; try contradiction;
+          destruct Hx as [Hx|[]]; subst; eauto.
+  - inversion H; subst. left. split; [reflexivity|]. intros x [].
+Qed.
+
+Lemma Inv_forget : forall k s f o, k <> KSelect -> Inv k s -> pmap s f = Some o -> ~ registered s o -> Inv k (forget s f).
+Proof.
+  intros k s f o Hk (HW & HM & HE) Hp Hn. destruct (HM Hk) as [Mb Mm Me]. split; [|split].
+  - destruct HW. split; simpl; assumption.
+  - intros _. split; simpl.
+    + intros f' o' H. unfold upd in H. destruct (Nat.eqb_spec f' f); [discriminate | apply Mb; exact H].
+    + intros o' f' Hfd Hr. change (registered s o') in Hr. change (mask (forget s f) o') with (mask s o').
+      destruct (Mm o' f' Hfd Hr) as [A B].
+      assert (f' <> f) by (intro; subst; rewrite Hp in A; inversion A; subst; contradiction).
+      rewrite !upd_other by assumption. split; assumption.
+    + intros f' o' m H1 H2 H3. unfold upd in H1, H3. destruct (Nat.eqb_spec f' f); [discriminate|].
+      change (mask (forget s f) o') with (mask s o'). change (registered s o'). eapply Me; eassumption.
+  - intros Hk' f' m H. simpl in H. unfold upd in H. destruct (Nat.eqb_spec f' f); [discriminate|].
+    destruct (HE Hk' f' m H) as (o' & A & B). exists o'. simpl. rewrite upd_other by assumption. split; assumption.
+Qed.
+
+Lemma Inv_forget_discard : forall k s f o, k <> KSelect -> Inv k s -> pmap s f = Some o -> Inv k (b_discard (forget s f) o).
+Proof.
+  intros k s f o Hk (HW & HM & HE) Hp. destruct (HM Hk) as [Mb Mm Me]. destruct HW as [Wi Wb Wr Wn1 Wn2 Wt].
+  destruct (NoDup_remove1 o _ Wn1) as [N1 N1']. destruct (NoDup_remove1 o _ Wn2) as [N2 N2'].
+  assert (Hsub : forall o', registered (b_discard (forget s f) o) o' -> registered s o' /\ o' <> o).
+  { intros o' [H|H]; simpl in H.
+    - split; [left; eapply In_remove1; exact H | intro; subst; contradiction].
+    - split; [right; eapply In_remove1; exact H | intro; subst; contradiction]. }
+  assert (Hmask : forall o', o' <> o -> mask (b_discard (forget s f) o) o' = mask s o').
+  { intros o' Hn. unfold mask. simpl. rewrite !mem_remove1_neq by assumption. reflexivity. }
+  assert (Hsup : forall o', o' <> o -> registered s o' -> registered (b_discard (forget s f) o) o').
+  { intros o' Hn [H|H]; [left | right]; simpl; apply In_remove1_neq; assumption. }
+  split; [|split].
+  - split; simpl; try assumption.
+    + intros o' Hr. apply Wr. apply Hsub. exact Hr.
+    + intros o' Ht. unfold upd in Ht. destruct (Nat.eqb_spec o' o); [congruence|].
+      apply Hsup; [assumption | apply Wt; exact Ht].
+  - intros _. split.
+    + simpl. intros f' o' H. unfold upd in H. destruct (Nat.eqb_spec f' f); [discriminate | apply Mb; exact H].
+    + intros o' f' Hfd Hr. destruct (Hsub o' Hr) as [Hr' Hn]. simpl in Hfd.
+      destruct (Mm o' f' Hfd Hr') as [A B].
+      assert (f' <> f) by (intro; subst; rewrite Hp in A; inversion A; subst; contradiction).
+      rewrite Hmask by assumption. simpl. rewrite !upd_other by assumption. split; assumption.
+    + intros f' o' m H1 H2 H3. simpl in H1, H2, H3. unfold upd in H1, H3. destruct (Nat.eqb_spec f' f); [discriminate|].
+      assert (o' <> o).
+      { intro; subst. apply Mb in H1. apply Mb in Hp. congruence. }
+      rewrite Hmask by assumption. destruct (Me f' o' m H1 H2 H3) as [A B]. split; [exact A | apply Hsup; assumption].
+  - intros Hk' f' m H. simpl in H. unfold upd in H. destruct (Nat.eqb_spec f' f); [discriminate|].
+    destruct (HE Hk' f' m H) as (o' & A & B). exists o'. simpl. rewrite upd_other by assumption. split; assumption.
+Qed.
+
+Lemma Inv_process : forall k s fr s' e, k <> KSelect -> Inv k s -> process k s fr = (s', e) -> Inv k s'.
+Proof.
+  intros k s [f r] s' e Hk HI H. destruct (process_cases _ _ _ _ _ _ H) as [[-> _]|[(o & Hp & Hn & -> & _)|(o & Hp & -> & _)]].
+  - exact HI.
+  - eapply Inv_forget; eassumption.
+  - eapply Inv_forget_discard; eassumption.
+Qed.
+
+Lemma Inv_processes : forall k l s s' e, k <> KSelect -> Inv k s -> processes k s l = (s', e) -> Inv k s'.
+Proof.
+  induction l as [|fr t IH]; simpl; intros s s' e Hk HI H.
+  - inversion H; subst. exact HI.
+  - destruct (process k s fr) as [s1 e1] eqn:E1. destruct (processes k s1 t) as [s2 e2] eqn:E2.
+    inversion H; subst. eapply IH; [exact Hk | eapply Inv_process; eassumption | exact E2].
+Qed.
